@@ -52,6 +52,9 @@ func (w *WaitGroup) InstanceVariables() *InstanceVariables {
 
 func (w *WaitGroup) Add(n int) (err Value) {
 	if n < 0 {
+		if n == math.MinInt {
+			return Ref(NewError(OutOfRangeErrorClass, "wait group counter cannot be negative"))
+		}
 		return w.Remove(-n)
 	}
 	for {
@@ -72,6 +75,12 @@ func (w *WaitGroup) Add(n int) (err Value) {
 // Decrements the counter by `n`, the counter of the native wait group
 // must never drop below zero, it panics and stays unusable when it does.
 func (w *WaitGroup) Remove(n int) (err Value) {
+	if n < 0 {
+		if n == math.MinInt {
+			return Ref(NewError(OutOfRangeErrorClass, "wait group counter is too large"))
+		}
+		return w.Add(-n)
+	}
 	for {
 		count := w.count.Load()
 		if count < int64(n) {
@@ -87,9 +96,8 @@ func (w *WaitGroup) Remove(n int) (err Value) {
 	return Undefined
 }
 
-func (w *WaitGroup) Start() {
-	w.count.Add(1)
-	w.Native.Add(1)
+func (w *WaitGroup) Start() (err Value) {
+	return w.Add(1)
 }
 
 func (w *WaitGroup) End() (err Value) {
